@@ -3,6 +3,7 @@ package main
 // R17 lifecycle rules and the shutdown-flag confinement rule (R14).
 
 import (
+	"golang.org/x/tools/go/cfg"
 	"fmt"
 	"go/ast"
 	"go/token"
@@ -478,6 +479,104 @@ func ruleTick(c *Ctx) {
 		}
 		return true
 	})
+	// Done() is evaluated only after a Tick that follows the last wait: Tick is what moves accepted
+	// requests from the API's hand-over buffer (filled while the loop is parked) into the scheduler,
+	// and Done() does not look at that buffer
+	{
+		g := buildCFG(pk, loop.Body)
+		callsMethod := func(n ast.Node, name string) bool {
+			f := false
+			ast.Inspect(n, func(x ast.Node) bool {
+				if _, ok := x.(*ast.FuncLit); ok {
+					return false
+				}
+				if call, ok := x.(*ast.CallExpr); ok {
+					if fn, ok := calleeOf(info, call).(*types.Func); ok && fn.Name() == name && isFuncOf(fn, pkgSystem, "System") {
+						f = true
+					}
+				}
+				return true
+			})
+			return f
+		}
+		waits := func(n ast.Node) bool {
+			f := false
+			ast.Inspect(n, func(x ast.Node) bool {
+				switch y := x.(type) {
+				case *ast.FuncLit:
+					return false
+				case *ast.UnaryExpr:
+					if y.Op == token.ARROW {
+						f = true
+					}
+				case *ast.SelectStmt, *ast.CommClause:
+					f = true
+				}
+				return true
+			})
+			return f
+		}
+		// must-analysis with kill: ticked[b] = the system has ticked since the last wait, at entry of b
+		const top, yes, no = 0, 1, 2
+		in := make([]int, len(g.Blocks))
+		in[0] = no
+		flow := func(b *cfg.Block, st int, visit func(n ast.Node, st int)) int {
+			for _, n := range b.Nodes {
+				if visit != nil {
+					visit(n, st)
+				}
+				if waits(n) {
+					st = no
+				}
+				if callsMethod(n, "Tick") {
+					st = yes
+				}
+			}
+			return st
+		}
+		for changed, it := true, 0; changed && it < 4*len(g.Blocks)+8; it++ {
+			changed = false
+			for _, b := range g.Blocks {
+				if in[b.Index] == top {
+					continue
+				}
+				o := flow(b, in[b.Index], nil)
+				for _, sc := range b.Succs {
+					nv := in[sc.Index]
+					switch {
+					case nv == top:
+						nv = o
+					case nv != o:
+						nv = no
+					}
+					if nv != in[sc.Index] {
+						in[sc.Index] = nv
+						changed = true
+					}
+				}
+			}
+		}
+		nDone, okDone := 0, true
+		var where token.Pos
+		for _, b := range g.Blocks {
+			if in[b.Index] == top {
+				continue
+			}
+			flow(b, in[b.Index], func(n ast.Node, st int) {
+				if callsMethod(n, "Done") {
+					nDone++
+					if st != yes {
+						okDone = false
+						where = n.Pos()
+					}
+				}
+			})
+		}
+		if where == token.NoPos {
+			where = loop.Pos()
+		}
+		c.check(nDone >= 1 && okDone, "loop/tick-before-done", where, "every evaluation of Done() in Loop follows a Tick with no wait in between", "Loop evaluates Done() without having ticked since it last waited: a request accepted while the loop was parked sits in the API's hand-over buffer, which Done() does not see, so the loop can exit and the request is never answered")
+	}
 	c.check(nRet >= 1 && okRet, "loop/exit-only-when-done", loop.Pos(), "Loop returns only under `if s.Done()`", "Loop can return although the system is not done: accepted requests would never be answered")
 	// Done() = api.Done() && scheduler.Size() == 0 ; api.Done() = done && len(sq) == 0
 	for _, t := range []struct{ pkg, recv, want, key string }{
